@@ -46,6 +46,34 @@ class Terms:
             self._ref_init = r
         return self._ref_init
 
+    def _inline_predicate(self, callee, args, depth):
+        """a free bool function of the library whose body is one return statement is read as its expression"""
+        if depth > 3:
+            return None
+        g = self.u.function_for_decl(callee)
+        if g is None or g.record is not None or g.is_lambda or len(g.params) != len(args):
+            return None
+        if self.u.decl(callee).get('crtype') != 'bool' or not g.tname.startswith('BaseGraph::'):
+            return None
+        body = g.nodes[g.body] if g.body is not None and g.body >= 0 else None
+        if body is None or body['k'] != 'CompoundStmt' or len(body.get('c', [])) != 1:
+            return None
+        r = g.nodes[body['c'][0]]
+        if r['k'] != 'ReturnStmt' or not r.get('c'):
+            return None
+        if any(x['k'] in ('LambdaExpr', 'DeclStmt') for x in g.nodes):
+            return None
+        e = Terms(g).t(r['c'][0], True, depth + 1)
+        sub = {('var', p): a for p, a in zip(g.params, args)}
+
+        def S(t):
+            if not isinstance(t, tuple):
+                return t
+            if t in sub:
+                return sub[t]
+            return tuple(S(x) for x in t)
+        return S(e)
+
     def t(self, nid, resolve_refs=True, depth=0):
         if nid is None or nid < 0:
             return ('none',)
@@ -144,7 +172,11 @@ class Terms:
             cal = self.u.decl(n.get('callee', -1))
             if cal is None:
                 return ('icall', T(n.get('calleeexpr', -1)), tuple(T(x) for x in n.get('args', [])))
-            return ('call', cal['tname'], tuple(T(x) for x in n.get('args', [])))
+            args = tuple(T(x) for x in n.get('args', []))
+            inl = self._inline_predicate(n.get('callee', -1), args, depth)
+            if inl is not None:
+                return inl
+            return ('call', cal['tname'], args)
         if k in ('CXXConstructExpr', 'CXXTemporaryObjectExpr'):
             args = n.get('args', [])
             ty = n.get('t', '').replace('const ', '')
@@ -178,8 +210,8 @@ def _not(t):
     x = t
     while x[0] in ('conv',) and len(x) == 3:
         x = x[2]
-    if x[0] == 'bin' and x[1] == '==' and t is x:
-        return ('bin', '!=', x[2], x[3])
+    if x[0] == 'bin' and x[1] in ('==', '!=') and t is x:
+        return ('bin', '!=' if x[1] == '==' else '==', x[2], x[3])
     return ('un', '!', False, t)
 
 
